@@ -1089,6 +1089,26 @@ fn wide_c05(g: &Arc<Grammar>, sizes: &[usize], cfgs: &[Cfg]) -> Box<dyn Family> 
         }),
     })
 }
+fn wide_c06(g: &Arc<Grammar>, sizes: &[usize], cfgs: &[Cfg]) -> Box<dyn Family> {
+    Box::new(progs::WideFamily {
+        label: "c06".to_string(),
+        g: g.clone(),
+        sizes: sizes.to_vec(),
+        cfgs: cfgs.to_vec(),
+        f: Box::new(move |_g, toks, c, ctx| {
+            let texts = progs::base_texts(toks);
+            let o0 = ctx.fmt(c, &texts[0]);
+            for t in &texts[1..2] {
+                ctx.sub_eval();
+                ctx.nontrivial();
+                let o = ctx.fmt(c, t);
+                if o != o0 {
+                    ctx.fail("C06", o2::c06_signature(&texts[0], t, &o0, &o), o2::first_diff_line(&o0, &o), json!({"oracle": "c06", "input_head": texts[0].chars().take(200).collect::<String>(), "tokens": toks.len(), "cfg": c, "no_confirm": true}));
+                }
+            }
+        }),
+    })
+}
 fn deep_c06(g: &Arc<Grammar>, d: usize, max_depth: usize, cfgs: &[Cfg]) -> Box<dyn Family> {
     Box::new(progs::DeepFamily {
         label: "c06".to_string(),
@@ -1517,6 +1537,7 @@ pub fn families(check: &str, tier: &str) -> Vec<Box<dyn Family>> {
                     c06_comment_family(&g(1), 1, &C_QUICK[1..2], &[0, 2], &[0, 1]),
                     deep_c06(&g(1), 1, 12, &C_QUICK[..3]),
                     c06_toggle_family(&C_QUICK[..3], ro_deep),
+                    wide_c06(&g(1), &[6000], &C_QUICK[..1]),
                 ]
             } else {
                 vec![
@@ -1526,6 +1547,7 @@ pub fn families(check: &str, tier: &str) -> Vec<Box<dyn Family>> {
                     c06_comment_family(&g(1), 1, &C_QUICK[..3], &[0, 1, 2, 3, 4, 5, 6], &[0, 1, 2]),
                     deep_c06(&g(1), 1, 24, &C_QUICK),
                     c06_toggle_family(&C_QUICK, ro_deep),
+                    wide_c06(&g(1), &[1000, 6000, 20000], &C_QUICK[..2]),
                 ]
             }
         }
@@ -1607,6 +1629,20 @@ pub fn families(check: &str, tier: &str) -> Vec<Box<dyn Family>> {
                     ],
                 }
             };
+            // disabled regions holding runs of blank lines (and non-ASCII text right behind them), LF and CRLF
+            let region_blanks = || {
+                let mut items = vec![];
+                for nl in ["\n", "\r\n"] {
+                    for k in 1..=4usize {
+                        let blanks = nl.repeat(k);
+                        items.push(format!("{{pasfmt off}}{nl}a{blanks}"));
+                        items.push(format!("a  ;{nl}// pasfmt off{nl}b{blanks}\u{e9}x  :=  1;{blanks}// pasfmt on{nl}c  ;{nl}"));
+                        items.push(format!("begin{nl}  {{pasfmt off}}{blanks}  x;{blanks}  {{pasfmt on}}{blanks}  y  ;{nl}end."));
+                        items.push(format!("asm{blanks}  mov eax, 1{blanks}end;{blanks}"));
+                    }
+                }
+                Texts { name: "disabled-regions-with-blank-line-runs".into(), items }
+            };
             let lits = |max_lines: usize| {
                 let f = o3::C12Family { max_lines, cfgs: vec![cfg::DEFAULT], quotes: vec![3], positions: vec![0, 4, 5] };
                 let items: Vec<String> = (0..f.len()).map(|i| f.build(i).0).collect();
@@ -1622,6 +1658,7 @@ pub fn families(check: &str, tier: &str) -> Vec<Box<dyn Family>> {
                     tf("c15", Texts { name: "asm-bodies".into(), items: c07_asm_texts(false) }, &c15cfg[..2], small(false)),
                     tf("c15", TokenTails, &c15cfg[..2], small(false)),
                     tf("c15", long_tokens(), &c15cfg[..1], Box::new(|x, c, ctx| o3::c15(x, c, &o3::C15Opts { singles: false, pairs: false }, ctx))),
+                    tf("c15", region_blanks(), &c15cfg, small(false)),
                 ]
             } else {
                 vec![
@@ -1634,6 +1671,7 @@ pub fn families(check: &str, tier: &str) -> Vec<Box<dyn Family>> {
                     tf("c15", Texts { name: "asm-bodies".into(), items: c07_asm_texts(true) }, &c15cfg, small(false)),
                     tf("c15", TokenTails, &c15cfg, small(false)),
                     tf("c15", long_tokens(), &c15cfg, Box::new(|x, c, ctx| o3::c15(x, c, &o3::C15Opts { singles: false, pairs: false }, ctx))),
+                    tf("c15", region_blanks(), &C_QUICK, small(false)),
                 ]
             }
         }
@@ -1919,7 +1957,7 @@ pub fn families(check: &str, tier: &str) -> Vec<Box<dyn Family>> {
             // every list of up to three files over {anon-short, anon-long, same-length-change}, narrow width, no
             // re-indentation of multi-line strings (another path through the line wrapper)
             let shape_lists = || {
-                let ks = [8usize, 9, 0];
+                let ks = [9usize, 10, 0];
                 let mut out: Vec<Vec<usize>> = vec![];
                 for a in ks {
                     out.push(vec![a]);
@@ -2005,7 +2043,14 @@ pub fn replay(case: &Value, ctx: &mut Ctx) -> bool {
         }
         "c18" => crate::sched::replay(case, ctx),
         "c07" => o3::c07_eof(&input, case["prefix_len"].as_u64().map(|n| n as usize), case["eof_clause"].as_bool().unwrap_or(false), &c, ctx),
-        "c12" => o3::c12(&input, &c, ctx),
+        "c12" => {
+            // (state that outlives one formatter - caches keyed without the configuration - only shows after
+            // other configurations ran in the same process: replay the sweep the family makes)
+            for other in C_QUICK.iter().chain(crate::cfg::c_full().iter()) {
+                let _ = ctx.fmt(other, &input);
+            }
+            o3::c12(&input, &c, ctx)
+        }
         "c15" => {
             let cur: Vec<u32> = case["cursors"].as_array().map(|a| a.iter().filter_map(|v| v.as_u64()).map(|v| v as u32).collect()).unwrap_or_default();
             let _ = cur;
